@@ -57,9 +57,9 @@ CHECKS = {
   engine="E2-mir2smt",
   technique="path-wise symbolic execution of the MIR of Rune's Display/FromStr (strings as explicit symbolic char sequences), is_reserved/reserved and commitment into SMT; native replay",
   category="model_checking",
-  text="Solver verdict that Rune::from_str accepts exactly the A-Z names that fit u128 and returns their modified base-26 value (every char sequence of the listed lengths up to 29), that printing then parsing returns the same rune for all names up to 7/8 letters and for u128::MAX, that reserved names are exactly those >= the first 27-letter name with Rune::reserved total and exact, and that commitment is the minimal little-endian encoding for all u128.",
+  text="Solver verdict that Rune::from_str accepts exactly the A-Z names that fit u128 and returns their modified base-26 value (every char sequence of the listed lengths up to 29), that printing then parsing returns the same rune for all names up to 5 letters and for u128::MAX, that reserved names are exactly those >= the first 27-letter name with Rune::reserved total and exact, and that commitment is the minimal little-endian encoding for all u128.",
   design_ref="DESIGN.md §3 C32",
-  note="Partial: print->parse for names longer than 8 letters and everything about spacers (SpacedRune) is outside the decided bound (solver limits, stated in the evidence)."),
+  note="Partial: print->parse for names longer than 5 letters and everything about spacers (SpacedRune) is outside the decided bound (solver limits, stated in the evidence)."),
  "C25": dict(
   engine="E2-mir2smt + E1a-kani-ordinals",
   technique="differential symbolic execution: the MIR of the real Runestone::decipher and the MIR of a specification reference are executed path-wise on the same symbolic integer sequence and compared by SMT queries; LEB128 payload decoding by Kani/CBMC; native replay",
@@ -87,7 +87,7 @@ CHECKS = {
   category="model_checking",
   text="Solver verdict that, for every transaction in the listed scenario shapes (any rune ids, balances, edict amounts/outputs, OP_RETURN positions, pointer, open/closed mint, etching with premine, cenotaph), the balances ord stores per output and the amounts it burns are exactly those of a reference written from the specification: edicts in order with capping, zero = all, output == n = every non-OP_RETURN output (even split, remainder first), 0:0 = the etched rune, leftovers to the pointer or first non-OP_RETURN output, OP_RETURN allocations and cenotaphs burn; no zero balance or unknown rune is stored.",
   design_ref="DESIGN.md §3 C09",
-  note="One-transaction step over a shim RuneUpdater; decipher/mint/etched/unallocated are stubs returning arbitrary scenario values (their own behaviour is C25/C10 or out of reach). <= 3 outputs, <= 2 input runes, <= 2 edicts."),
+  note="One-transaction step over a shim RuneUpdater; decipher/mint/etched/unallocated are stubs returning arbitrary scenario values (their own behaviour is C25/C10 or out of reach). <= 4 outputs, <= 2 input runes, <= 2 edicts."),
 }
 
 _IDX = "global invariant over redb tables after arbitrary histories; the audits and the maintenance code run inside redb transactions that cannot be symbolically executed with Kani/CBMC or the MIR engine (only the per-transaction / per-value kernels are decided, under C01, C35)"
